@@ -130,7 +130,7 @@ func buildKey() string {
 	h := sha256.New()
 	hashTree(h, repoRoot, repoSkip)
 	fmt.Fprintf(h, "gcflags=%s\n", os.Getenv("VSIM_GCFLAGS"))
-	for _, d := range []string{"vsimrt", "harness", "instrument"} {
+	for _, d := range []string{"vsimrt", "harness", "instrument", "cmd/vcheck"} { // cmd/vcheck: the build recipe (which packages are instrumented) lives there
 		fmt.Fprintf(h, "== %s\n", d)
 		hashTree(h, filepath.Join(verifRoot, d), func(rel string, isDir bool) bool { return false })
 	}
@@ -257,7 +257,7 @@ func ensureBuild(verbose bool) binaries {
 	o, err = run(filepath.Join(scratch, "xsync"), penv, instr, "-dir", ".", "./singleflight")
 	must("instrument x/sync", o, err)
 	o, err = run(filepath.Join(scratch, "vivid"), penv, instr, "-dir", ".", ".", "./internal/actor", "./internal/mailbox", "./internal/queues", "./internal/future",
-		"./internal/guard", "./internal/remoting/...", "./internal/cluster", "./internal/scheduler", "./internal/chain", "./internal/utils", "./internal/sugar", "./internal/metrics")
+		"./internal/guard", "./internal/messages", "./internal/remoting/...", "./internal/cluster", "./internal/scheduler", "./internal/chain", "./internal/utils", "./internal/sugar", "./internal/metrics")
 	must("instrument vivid", o, err)
 	if verbose {
 		fmt.Fprint(os.Stderr, o)
